@@ -1,18 +1,18 @@
-\* generated by mkstorecfg.py - edge cover for C07
+\* generated by mkstorecfg.py - edge cover, l1info faults
 CONSTANTS
-  Kind = "bridge"
+  Kind = "l1info"
   Fixed = TRUE
-  H = 3
-  MaxBlocks = 3
+  H = 2
+  MaxBlocks = 2
   MaxEvents = 2
-  MaxLeaves = 4
-  MaxOps = 4
+  MaxLeaves = 3
+  MaxOps = 3
   Faults = {"stmt", "ctx"}
   AllowGap = FALSE
   AllowRestart = TRUE
   AllowReorg = FALSE
-  Rollups = {}
-  ExitRoots = {}
+  Rollups = {1, 2}
+  ExitRoots = {0, 1}
 INIT Init
 NEXT Next
 VIEW view
